@@ -677,8 +677,7 @@ Qed.
 
 (* ================= the whole page walk ================= *)
 (* a, a+d, a+2d, ... (len terms) *)
-Fixpoint zseq (d a : Z) (len : nat) : list Z :=
-  match len with O => [] | S l => a :: zseq d (a + d) l end.
+(* [zseq d a len] = a, a+d, a+2d, ... (len terms) is defined in Model/C06.v *)
 Definition up_from (a : Z) (len : nat) : list Z := zseq 1 a len.        (* [a; a+1; ...] *)
 Definition down_from (a : Z) (len : nat) : list Z := zseq (-1) a len.   (* [a; a-1; ...] *)
 
@@ -734,11 +733,7 @@ Proof.
 Qed.
 
 (* ---- GetRecords, LoadGeneralArticles: closed forms ---- *)
-Definition dir (desc : bool) : Z := if desc then -1 else 1.
-(* entries left in the listing direction, counting position idx itself *)
-Definition remn (es : list entry) (desc : bool) (idx : Z) : Z := if desc then idx else lenZ es + 1 - idx.
-Definition getl (es : list entry) (i : Z) : entry := match rd es (i - 1) with FOk e => e | _ => None end.
-Definition tag (es : list entry) (i : Z) : Z * entry := (i, getl es i).
+(* [dir], [remn] (entries left in the listing direction, counting position idx itself), [getl], [tag]: Model/C06.v *)
 
 Lemma map_fst_tag es l : map fst (map (tag es) l) = l.
 Proof. rewrite map_map. cbn [tag fst]. apply map_id. Qed.
@@ -1254,3 +1249,290 @@ Qed.
 Example refuted_file_terminates :
   page_walk [Some (10, 1); None; Some (11, 2)] 1 true = FOk (E_ATOI, 1, firstn 1 (walk_order [Some (10, 1); None; Some (11, 2)] true)).
 Proof. vm_compute. reflexivity. Qed.
+
+(* ================= bbs.LoadGeneralArticles as one call: client-supplied and stale cursors ================= *)
+
+Lemma first_idx_sound p : forall es k i, first_idx p es k = Some i -> exists e, rd es (i - k) = FOk e /\ p e = true.
+Proof.
+  induction es as [|a es IH]; intros k i H; [discriminate|].
+  cbn [first_idx] in H. destruct (p a) eqn:Ep.
+  - inversion H; subst. exists a. rewrite Z.sub_diag. split; [reflexivity|exact Ep].
+  - destruct (IH _ _ H) as (e & Hrd & Hp). exists e. split; [|exact Hp].
+    pose proof (rd_range _ _ _ Hrd). replace (i - k) with ((i - (k + 1)) + 1) by lia. rewrite rd_cons_S by lia. exact Hrd.
+Qed.
+
+Lemma find_spec_range es T name desc s : find_spec es T name desc = Some s -> 1 <= s <= lenZ es.
+Proof.
+  assert (HL : forall p, last_idx p es 1 = Some s -> 1 <= s <= lenZ es).
+  { intros p E. destruct (last_idx_sound _ _ _ _ E) as (e & Hrd & _). apply rd_range in Hrd. lia. }
+  assert (HF : forall p, first_idx p es 1 = Some s -> 1 <= s <= lenZ es).
+  { intros p E. destruct (first_idx_sound _ _ _ _ E) as (e & Hrd & _). apply rd_range in Hrd. lia. }
+  unfold find_spec. intros H.
+  destruct desc, name as [nm|].
+  - destruct (last_idx (is_exact T nm) es 1) eqn:E; [inversion H; subst; eauto|eauto].
+  - eauto.
+  - destruct (first_idx (is_exact T nm) es 1) eqn:E; [inversion H; subst; eauto|eauto].
+  - eauto.
+Qed.
+
+Lemma load_page_of es s k desc : 1 <= s <= lenZ es -> load_page es s k desc = FOk (page_of es s k desc).
+Proof.
+  intros Hs. assert (Hr : 1 <= remn es desc s <= lenZ es) by (destruct desc; cbn [remn]; lia).
+  unfold page_of. destruct (Z.ltb_spec (Z.of_nat k) (remn es desc s)) as [Hlt|Hle].
+  - apply load_page_full; assumption.
+  - apply load_page_last; assumption.
+Qed.
+
+Lemma load_page_zero es k : lenZ es <> 0 -> load_page es 0 k true = load_page es (lenZ es) k true.
+Proof.
+  intros Hn. unfold load_page. destruct (Z.eqb_spec (lenZ es) 0); [lia|]. cbn [Z.eqb andb].
+  destruct (Z.eqb_spec (lenZ es) 0); [lia|]. reflexivity.
+Qed.
+
+(* one bbs.LoadGeneralArticles call = the linear-scan page, for every file, every cursor, both directions, every page size *)
+Theorem bbs_page_eq_scan es cur k desc :
+  sorted es -> names_unique es -> bbs_page es cur k desc = bbs_page_spec es cur k desc.
+Proof.
+  intros Hs Hu. unfold bbs_page, bbs_page_spec, bbs_start.
+  destruct cur as [[T nm]|].
+  - destruct (Z.eqb_spec (lenZ es) 0) as [E0|Hn]; [reflexivity|].
+    rewrite find_eq_scan by assumption.
+    destruct (find_spec es T (Some nm) desc) as [s|] eqn:E; [|reflexivity].
+    cbn [find_res fbind]. apply load_page_of. exact (find_spec_range _ _ _ _ _ E).
+  - cbn [fbind]. destruct (Z.eqb_spec (lenZ es) 0) as [E0|Hn].
+    + unfold load_page. rewrite E0. reflexivity.
+    + assert (1 <= lenZ es) by (unfold lenZ in *; lia).
+      destruct desc; [rewrite load_page_zero by exact Hn|]; apply load_page_of; lia.
+Qed.
+
+(* a cursor with no entry in the listing direction ends the listing: NOT FOUND, never a page *)
+Theorem bbs_cursor_out_of_range (es : list entry) (T nm : Z) (k : nat) (desc : bool) :
+  sorted es -> names_unique es -> es <> [] ->
+  (forall i tn, vat es i tn -> if desc then T < fst tn else fst tn < T) ->
+  bbs_page es (Some (T, nm)) k desc = FErr E_NOTFOUND.
+Proof.
+  intros Hs Hu Hne Hout. rewrite bbs_page_eq_scan by assumption. unfold bbs_page_spec.
+  destruct (Z.eqb_spec (lenZ es) 0) as [E0|Hn].
+  { destruct es; [congruence|]. unfold lenZ in E0. cbn in E0. lia. }
+  assert (Hex : forall k0 tn, vat es k0 tn -> tn <> (T, nm)).
+  { intros k0 tn Hv ->. specialize (Hout _ _ Hv). cbn in Hout. destruct desc; lia. }
+  unfold find_spec. destruct (spec_no_exact es T nm Hex) as [EL EF].
+  destruct desc.
+  - rewrite EL, spec_no_le; [reflexivity|]. intros k0 tn Hv. exact (Hout _ _ Hv).
+  - rewrite EF, spec_no_ge; [reflexivity|]. intros k0 tn Hv. exact (Hout _ _ Hv).
+Qed.
+
+(* ---- stale cursors: the index changes between two pages ---- *)
+(* creation times strictly increase along the parsable entries (no two articles of the same second) *)
+Definition times_strict (es : list entry) : Prop :=
+  forall i j ti tj, i < j -> vat es i ti -> vat es j tj -> fst ti < fst tj.
+(* es' is es after any number of deletions: same length, an entry is either unchanged or unparsable now *)
+Definition deletions (es es' : list entry) : Prop :=
+  lenZ es' = lenZ es /\ forall j tn, vat es' j tn -> vat es j tn.
+
+Lemma strict_sorted es : times_strict es -> sorted es.
+Proof.
+  intros H i j ti tj Hij Hi Hj. destruct (Z.eq_dec i j) as [->|Hne].
+  - rewrite (vat_fun _ _ _ _ Hi Hj). lia.
+  - specialize (H i j ti tj ltac:(lia) Hi Hj). lia.
+Qed.
+Lemma strict_unique es : times_strict es -> names_unique es.
+Proof.
+  intros H i j tn Hi Hj. destruct (Z.lt_trichotomy i j) as [Hlt|[Heq|Hgt]]; [|exact Heq|].
+  - specialize (H i j tn tn Hlt Hi Hj). lia.
+  - specialize (H j i tn tn Hgt Hj Hi). lia.
+Qed.
+Lemma deletions_strict es es' : times_strict es -> deletions es es' -> times_strict es'.
+Proof. intros H [_ Hd] i j ti tj Hij Hi Hj. exact (H i j ti tj Hij (Hd _ _ Hi) (Hd _ _ Hj)). Qed.
+Lemma deletions_refl es : deletions es es.
+Proof. split; auto. Qed.
+
+(* r is (the 1-based position of) the nearest parsable entry of es from 0-based position i in the listing direction,
+   i itself included; NOT FOUND when there is none *)
+Definition nearest_live (es : list entry) (desc : bool) (i : Z) (r : fr Z) : Prop :=
+  (exists j tn, (if desc then j <= i else i <= j) /\ vat es j tn /\
+     (forall j' tn', (if desc then j < j' <= i else i <= j' < j) -> ~ vat es j' tn') /\ r = FOk (j + 1)) \/
+  ((forall j tn, (if desc then j <= i else i <= j) -> ~ vat es j tn) /\ r = FErr E_NOTFOUND).
+
+Lemma stale_cursor_bookmark es es' i T nm desc :
+  times_strict es -> deletions es es' -> vat es i (T, nm) ->
+  nearest_live es' desc i (find es' (lenZ es') T (Some nm) desc).
+Proof.
+  intros Hst Hd Hv. pose proof (deletions_strict _ _ Hst Hd) as Hst'.
+  pose proof (strict_sorted _ Hst') as Hs'. pose proof (strict_unique _ Hst') as Hu'.
+  destruct Hd as [Hlen Hd]. pose proof (vat_range _ _ _ Hv) as Hi. rewrite <- Hlen in Hi.
+  rewrite find_eq_scan by assumption. unfold find_spec, nearest_live.
+  (* where the cursor's own entry can be in es' *)
+  assert (Hat : forall k tn, vat es' k tn -> (k < i /\ fst tn < T) \/ (k = i /\ tn = (T, nm)) \/ (i < k /\ T < fst tn)).
+  { intros k tn Hk. pose proof (Hd _ _ Hk) as Hk0. destruct (Z.lt_trichotomy k i) as [Hlt|[->|Hgt]].
+    - left. split; [exact Hlt|]. exact (Hst k i tn (T, nm) Hlt Hk0 Hv).
+    - right; left. split; [reflexivity|]. exact (vat_fun _ _ _ _ Hk0 Hv).
+    - right; right. split; [exact Hgt|]. exact (Hst i k (T, nm) tn Hgt Hv Hk0). }
+  destruct desc.
+  - pose proof (scan_down_spec es' (fun _ => true) (lfuel es') i 0 ltac:(lia) ltac:(lia)) as HD.
+    rewrite lfuel_val in HD. specialize (HD ltac:(lia) (lfuel_pos es')). unfold scan_down_post in HD.
+    destruct (scan_down _ _ _ _ _) as [[[j tn]|]|c|]; try contradiction.
+    + destruct HD as (Hj & Hvj & _ & Hbetween). left. exists j, tn. split; [lia|]. split; [exact Hvj|].
+      split; [intros j' tn' Hj' Hv'; specialize (Hbetween j' tn' Hj' Hv'); discriminate|].
+      destruct (Hat _ _ Hvj) as [[Hlt Ht]|[[-> ->]|[Hgt _]]]; [| |lia].
+      * assert (Hno : forall k tn', vat es' k tn' -> tn' <> (T, nm)).
+        { intros k tn' Hk ->. destruct (Hat _ _ Hk) as [[_ H]|[[-> _]|[_ H]]]; [cbn in H; lia| |cbn in H; lia].
+          specialize (Hbetween i (T, nm) ltac:(lia) Hk). discriminate. }
+        rewrite (proj1 (spec_no_exact es' T nm Hno)).
+        rewrite (spec_last_le es' T j tn Hvj ltac:(lia)); [reflexivity|].
+        intros k tn' Hk Hvk. destruct (Hat _ _ Hvk) as [[Hk' _]|[[-> _]|[_ H]]]; [| |exact H].
+        -- specialize (Hbetween k tn' ltac:(lia) Hvk). discriminate.
+        -- specialize (Hbetween i tn' ltac:(lia) Hvk). discriminate.
+      * rewrite (spec_last_exact es' T nm i Hvj); [reflexivity|].
+        intros k tn' Hk Hvk ->. destruct (Hat _ _ Hvk) as [[H _]|[[H _]|[_ H]]]; cbn in H; lia.
+    + right. split; [intros j tn Hj Hvj; pose proof (vat_range _ _ _ Hvj); specialize (HD j tn ltac:(lia) Hvj); discriminate|].
+      assert (Hno : forall k tn', vat es' k tn' -> tn' <> (T, nm)).
+      { intros k tn' Hk ->. destruct (Hat _ _ Hk) as [[_ H]|[[-> _]|[_ H]]]; [cbn in H; lia| |cbn in H; lia].
+        specialize (HD i (T, nm) ltac:(lia) Hk). discriminate. }
+      rewrite (proj1 (spec_no_exact es' T nm Hno)). rewrite spec_no_le; [reflexivity|].
+      intros k tn' Hvk. pose proof (vat_range _ _ _ Hvk) as Hrk. destruct (Hat _ _ Hvk) as [[Hk' _]|[[-> _]|[_ H]]]; [| |exact H].
+      * specialize (HD k tn' ltac:(lia) Hvk). discriminate.
+      * specialize (HD i tn' ltac:(lia) Hvk). discriminate.
+  - pose proof (scan_up_spec es' (fun _ => true) (lfuel es') i (lenZ es' - 1) ltac:(lia) ltac:(lia)) as HU.
+    rewrite lfuel_val in HU. specialize (HU ltac:(lia) (lfuel_pos es')). unfold scan_up_post in HU.
+    destruct (scan_up _ _ _ _ _) as [[[j tn]|]|c|]; try contradiction.
+    + destruct HU as (Hj & Hvj & _ & Hbetween). left. exists j, tn. split; [lia|]. split; [exact Hvj|].
+      split; [intros j' tn' Hj' Hv'; specialize (Hbetween j' tn' Hj' Hv'); discriminate|].
+      destruct (Hat _ _ Hvj) as [[Hlt _]|[[-> ->]|[Hgt Ht]]]; [lia| |].
+      * rewrite (spec_first_exact es' T nm i Hvj); [reflexivity|].
+        intros k tn' Hk Hvk ->. destruct (Hat _ _ Hvk) as [[_ H]|[[H _]|[H _]]]; cbn in H; lia.
+      * assert (Hno : forall k tn', vat es' k tn' -> tn' <> (T, nm)).
+        { intros k tn' Hk ->. destruct (Hat _ _ Hk) as [[_ H]|[[-> _]|[_ H]]]; [cbn in H; lia| |cbn in H; lia].
+          specialize (Hbetween i (T, nm) ltac:(lia) Hk). discriminate. }
+        rewrite (proj2 (spec_no_exact es' T nm Hno)).
+        rewrite (spec_first_ge es' T j tn Hvj ltac:(lia)); [reflexivity|].
+        intros k tn' Hk Hvk. destruct (Hat _ _ Hvk) as [[_ H]|[[-> _]|[Hk' _]]]; [exact H| |].
+        -- specialize (Hbetween i tn' ltac:(lia) Hvk). discriminate.
+        -- specialize (Hbetween k tn' ltac:(lia) Hvk). discriminate.
+    + right. split; [intros j tn Hj Hvj; pose proof (vat_range _ _ _ Hvj); specialize (HU j tn ltac:(lia) Hvj); discriminate|].
+      assert (Hno : forall k tn', vat es' k tn' -> tn' <> (T, nm)).
+      { intros k tn' Hk ->. destruct (Hat _ _ Hk) as [[_ H]|[[-> _]|[_ H]]]; [cbn in H; lia| |cbn in H; lia].
+        specialize (HU i (T, nm) ltac:(lia) Hk). discriminate. }
+      rewrite (proj2 (spec_no_exact es' T nm Hno)). rewrite spec_no_ge; [reflexivity|].
+      intros k tn' Hvk. pose proof (vat_range _ _ _ Hvk) as Hrk. destruct (Hat _ _ Hvk) as [[_ H]|[[-> _]|[Hk' _]]]; [exact H| |].
+      * specialize (HU i tn' ltac:(lia) Hvk). discriminate.
+      * specialize (HU k tn' ltac:(lia) Hvk). discriminate.
+Qed.
+
+Lemma bwalk_S f es k desc cur pg dels vis tr :
+  bwalk (S f) es k desc cur pg dels vis tr =
+    let es' := apply_dels es pg dels in
+    match bbs_page es' cur k desc with
+    | FHang => FHang
+    | FErr c => FOk (c, pg, vis, tr)
+    | FOk (items, next) =>
+        let vis' := vis ++ map fst items in
+        let tr' := tr ++ page_wire (items, next) in
+        match next with
+        | None => FOk (0, pg + 1, vis', tr')
+        | Some (_, None) => FOk (E_ATOI, pg + 1, vis', tr')
+        | Some (_, Some tn) => bwalk f es' k desc (Some tn) (pg + 1) dels vis' tr'
+        end
+    end.
+Proof. reflexivity. Qed.
+
+(* the bbs walk on a file that no longer changes, from any cursor that resolves to [start]: positions start, start+-1, ...
+   in order, each once, to the end of the file or to an unparsable page boundary *)
+Lemma bwalk_from es k desc : sorted es -> names_unique es -> (0 < k)%nat ->
+  forall fuel cur start pg vis tr,
+    bbs_page es cur k desc = load_page es start k desc ->
+    1 <= remn es desc start <= lenZ es -> remn es desc start <= Z.of_nat fuel ->
+    exists code pg' m tr',
+      bwalk fuel es k desc cur pg [] vis tr = FOk (code, pg', vis ++ zseq (dir desc) start m, tr') /\
+      ((code = 0 /\ m = Z.to_nat (remn es desc start)) \/ (code = E_ATOI /\ (m < Z.to_nat (remn es desc start))%nat)).
+Proof.
+  intros Hs Hu Hk. induction fuel as [|f IH]; intros cur start pg vis tr Hpage Hr Hf; [lia|].
+  rewrite bwalk_S. cbn [apply_dels fold_left]. cbv zeta. rewrite Hpage.
+  destruct (Z_lt_le_dec (Z.of_nat k) (remn es desc start)) as [Hlt|Hle].
+  - rewrite (load_page_full es k desc start Hr Hlt).
+    set (nxt := start + Z.of_nat k * dir desc).
+    assert (Er : remn es desc nxt = remn es desc start - Z.of_nat k) by (unfold nxt; destruct desc; cbn [remn dir]; lia).
+    change (tag es nxt) with (nxt, getl es nxt). destruct (getl es nxt) as [[t nm]|] eqn:Eg; cbv zeta; cbv iota beta; rewrite map_fst_tag.
+    + apply getl_some in Eg.
+      assert (Hnext : bbs_page es (Some (t, nm)) k desc = load_page es nxt k desc).
+      { unfold bbs_page, bbs_start. destruct (Z.eqb_spec (lenZ es) 0) as [E0|_]; [lia|].
+        rewrite (find_present es t nm (nxt - 1) desc Hs Hu Eg). cbn [fbind]. f_equal. lia. }
+      match goal with |- context [bwalk f es k desc (Some (t, nm)) (pg + 1) [] ?v ?w] =>
+        destruct (IH (Some (t, nm)) nxt (pg + 1) v w Hnext ltac:(lia) ltac:(lia)) as (code & pg' & m & tr' & E & Hc) end.
+      exists code, pg', (k + m)%nat, tr'. rewrite E, <- app_assoc, zseq_app. fold nxt. split; [reflexivity|].
+      rewrite Er in Hc. destruct Hc as [[-> ->]|[-> Hm]]; [left|right]; split; try reflexivity; lia.
+    + eexists E_ATOI, (pg + 1), k, _. split; [reflexivity|]. right. split; [reflexivity|lia].
+  - rewrite (load_page_last es k desc start Hr Hle). cbv zeta. cbv iota beta. rewrite map_fst_tag.
+    eexists 0, (pg + 1), (Z.to_nat (remn es desc start)), _. split; [reflexivity|]. left. split; reflexivity.
+Qed.
+
+(* THE RESUMED WALK.  A cursor (T, nm) was handed out for the entry at 0-based position i of es; by the time the next page
+   is requested the file is es' (any deletions).  Then the rest of the walk lists the positions from the nearest surviving
+   entry at or after i in the listing direction to the end of the file (or to an unparsable page boundary), each once, in
+   order - nothing before that entry is listed again; and if no entry survives in that direction the walk ends at once
+   with NOT FOUND, having listed nothing more. *)
+Theorem walk_resumes_after_deletions (es es' : list entry) (i T nm : Z) (k : nat) (desc : bool) (pg : Z) (vis tr : list Z) :
+  times_strict es -> deletions es es' -> vat es i (T, nm) -> (0 < k)%nat ->
+  (exists j tn, (if desc then j <= i else i <= j) /\ vat es' j tn /\
+     (forall j' tn', (if desc then j < j' <= i else i <= j' < j) -> ~ vat es' j' tn') /\
+     exists code pg' m tr',
+       bwalk (bwfuel es') es' k desc (Some (T, nm)) pg [] vis tr = FOk (code, pg', vis ++ zseq (dir desc) (j + 1) m, tr') /\
+       ((code = 0 /\ m = Z.to_nat (remn es' desc (j + 1))) \/ (code = E_ATOI /\ (m < Z.to_nat (remn es' desc (j + 1)))%nat))) \/
+  ((forall j tn, (if desc then j <= i else i <= j) -> ~ vat es' j tn) /\
+   bwalk (bwfuel es') es' k desc (Some (T, nm)) pg [] vis tr = FOk (E_NOTFOUND, pg, vis, tr)).
+Proof.
+  intros Hst Hd Hv Hk.
+  pose proof (deletions_strict _ _ Hst Hd) as Hst'.
+  pose proof (strict_sorted _ Hst') as Hs'. pose proof (strict_unique _ Hst') as Hu'.
+  pose proof (vat_range _ _ _ Hv) as Hi. destruct Hd as [Hlen Hd0]. assert (Hd : deletions es es') by (split; assumption).
+  assert (Hn : lenZ es' <> 0) by lia.
+  assert (Hpage : bbs_page es' (Some (T, nm)) k desc = fbind (find es' (lenZ es') T (Some nm) desc) (fun s => load_page es' s k desc)).
+  { unfold bbs_page, bbs_start. destruct (Z.eqb_spec (lenZ es') 0); [lia|reflexivity]. }
+  destruct (stale_cursor_bookmark es es' i T nm desc Hst Hd Hv) as [(j & tn & Hj & Hvj & Hbt & E)|[Hnone E]].
+  - left. exists j, tn. split; [exact Hj|]. split; [exact Hvj|]. split; [exact Hbt|].
+    pose proof (vat_range _ _ _ Hvj) as Hrj.
+    apply (bwalk_from es' k desc Hs' Hu' Hk).
+    + rewrite Hpage, E. reflexivity.
+    + destruct desc; cbn [remn]; lia.
+    + unfold bwfuel. destruct desc; cbn [remn]; unfold lenZ in *; lia.
+  - right. split; [exact Hnone|]. unfold bwfuel. rewrite bwalk_S. cbn [apply_dels fold_left]. cbv zeta.
+    rewrite Hpage, E. reflexivity.
+Qed.
+
+(* ---- non-vacuity and what the hypotheses exclude ---- *)
+Definition ex_strict : list entry := [Some (10, 1); None; Some (12, 2); Some (15, 3); Some (17, 4)].
+Lemma ex_strict_vat i tn : vat ex_strict i tn -> (i = 0 /\ tn = (10, 1)) \/ (i = 2 /\ tn = (12, 2)) \/ (i = 3 /\ tn = (15, 3)) \/ (i = 4 /\ tn = (17, 4)).
+Proof.
+  intros H. pose proof (vat_range _ _ _ H) as R. change (lenZ ex_strict) with 5 in R.
+  assert (C : i = 0 \/ i = 1 \/ i = 2 \/ i = 3 \/ i = 4) by lia.
+  destruct C as [->|[->|[->|[->| ->]]]]; cbv in H; inversion H; auto.
+Qed.
+Example ex_strict_ok : times_strict ex_strict /\ deletions ex_strict (delete_at ex_strict 0) /\ vat ex_strict 0 (10, 1).
+Proof.
+  split; [|split; [split; [reflexivity|]|reflexivity]].
+  - intros i j ti tj Hij Hi Hj. apply ex_strict_vat in Hi, Hj.
+    destruct Hi as [[-> ->]|[[-> ->]|[[-> ->]|[-> ->]]]], Hj as [[-> ->]|[[-> ->]|[[-> ->]|[-> ->]]]]; cbn; lia.
+  - intros j tn H. pose proof (vat_range _ _ _ H) as R. change (lenZ (delete_at ex_strict 0)) with 5 in R.
+    assert (C : j = 0 \/ j = 1 \/ j = 2 \/ j = 3 \/ j = 4) by lia.
+    destruct C as [->|[->|[->|[->| ->]]]]; cbv in H; inversion H; reflexivity.
+Qed.
+(* the seeded behaviour in the model's terms: newest first, page size 2, the oldest article - the cursor of page 3 - is
+   deleted after page 2: the listing ends with NOT FOUND after 17, 15, 12, (unparsable); it does not start over *)
+Example ex_strict_walk_deleted_oldest :
+  bbs_walk ex_strict 2 true [(2, 0)] = FOk (E_NOTFOUND, 2, [5; 4; 3; 2], [2; 5; 12; 2; 2; 3; 10; 1]) /\
+  bbs_page (delete_at ex_strict 0) (Some (10, 1)) 2 true = FErr E_NOTFOUND /\
+  bbs_page ex_strict (Some (18, 9)) 2 false = FErr E_NOTFOUND /\
+  bbs_page ex_strict (Some (13, 9)) 2 true = FOk ([(3, Some (12, 2)); (2, None)], Some (1, Some (10, 1))).
+Proof. vm_compute. repeat split. Qed.
+(* [times_strict] cannot be dropped from the bookmark: with two articles of one second the scan by creation time goes back
+   to the far end of that second - position 3, which the descending walk has already listed, is listed again *)
+Example stale_cursor_equal_times_goes_back :
+  let es := [Some (10, 1); Some (12, 2); Some (12, 3); Some (15, 4)] in
+  sorted es /\ vat es 1 (12, 2) /\ find (delete_at es 1) 4 12 (Some 2) true = FOk 3.
+Proof.
+  cbv zeta. split; [|split; [reflexivity|vm_compute; reflexivity]].
+  intros i j ti tj Hij Hi Hj.
+  pose proof (vat_range _ _ _ Hi) as Ri. pose proof (vat_range _ _ _ Hj) as Rj. change (lenZ _) with 4 in Ri, Rj.
+  assert (Ci : i = 0 \/ i = 1 \/ i = 2 \/ i = 3) by lia. assert (Cj : j = 0 \/ j = 1 \/ j = 2 \/ j = 3) by lia.
+  destruct Ci as [->|[->|[->| ->]]], Cj as [->|[->|[->| ->]]]; cbv in Hi, Hj; inversion Hi; inversion Hj; subst; cbn; lia.
+Qed.
